@@ -66,6 +66,7 @@ def check_bay(led):
         tag = 'panels=%d,blade1d=%d,blade2d=%d,tstiff2d=%d' % (npan, n1, n2, n3)
         for which in ('k0', 'kG0', 'kM'):
             log = []
+            wants = []
 
             def run():
                 del log[:]
@@ -74,11 +75,14 @@ def check_bay(led):
                 m, n = integer('m'), integer('n')
                 bay.attrs.update(a=a, b=b, m=m, n=n, mu=real('mu'))
                 panels = []
+                del wants[:]
                 ycuts = [P.const(0)] + [real('ycut%d' % i) for i in range(1, npan)] + [b]
                 for i in range(npan):
-                    p = panelctx.new_panel(it, a=a, b=b, y1=ycuts[i], y2=ycuts[i + 1], stack=[real('th')], plyt=real('t'),
-                                           laminaprop=(real('E'), real('E'), real('nu')), mu=real('mu'), m=m, n=n)
+                    # every skin panel has its own laminate, density and edge flags: what the kernel term of panel i sees must be panel i's
+                    p, kw_, want_, g_ = py_panel.build(it, 'plate', 'uniform', 'none', dict(a=a, b=b, m=m, n=n, y1=ycuts[i], y2=ycuts[i + 1]), sfx='_s%d' % i)
                     p.name = 'skin%d' % i
+                    want_.update(a=a, b=b, m=m, n=n)
+                    wants.append((kw_, want_, g_))
                     panels.append(p)
                 bay.attrs['panels'] = panels
                 b1 = [make_stiffener('blade1d', i, log) for i in range(n1)]
@@ -90,14 +94,14 @@ def check_bay(led):
                 del calls[:]
                 r = it.call(it.getattr(bay, 'calc_' + which), [], dict(silent=True))
                 size = it.call(it.getattr(bay, 'get_size'), [], {})
-                return bay, panels, b1, b2, t2, r, size, list(log), (m, n)
+                return bay, panels, b1, b2, t2, r, size, list(log), (m, n), list(wants), list(ycuts)
             for path, out in it.explore(run):
                 func = BF + 'calc_' + which
                 name = '%s[%s]' % (func, tag)
                 if out[0] != 'return':
                     report(led, name + '/no-exception', func, ['raises %s%s' % (out[1].tname, tuple(str(x)[:80] for x in out[1].eargs))], signature='raise:' + out[1].tname)
                     continue
-                bay, panels, b1, b2, t2, r, size, lg, (m, n) = out[1]
+                bay, panels, b1, b2, t2, r, size, lg, (m, n), wts, ycuts = out[1]
                 skin = 3 * m * n
                 tot = skin
                 starts = {}
@@ -138,6 +142,14 @@ def check_bay(led):
                 stiff = [t for k_, t in terms if isinstance(t, Opaque) and t.kind == 'stiffener-matrix']
                 if len(kern) != len(panels):
                     probs.append('%d skin kernel terms, expected %d' % (len(kern), len(panels)))
+                if len(kern) == len(panels):
+                    fn = {'k0': 'fk0y1y2', 'kG0': 'fkG0y1y2', 'kM': 'fkMy1y2'}[which]
+                    for i, (t, (kw_, want_, g_)) in enumerate(zip(kern, wts)):
+                        args = dict(y1=ycuts[i], y2=ycuts[i + 1])
+                        if which == 'kM':
+                            args['d'] = kw_['offset']
+                        d = pycheck.diff_kernel(t, fn, g_['model'], args, want_)
+                        probs += ['skin panel %d: %s' % (i, x) for x in d if not x.startswith('unexpected argument')]
                 for t in kern:
                     a_ = t.f['args']
                     if not (peq(a_.get('row0'), 0) and peq(a_.get('col0'), 0) and peq(a_.get('size'), tot)):
